@@ -23,10 +23,11 @@ diff = run(["git", "-C", wt, "diff", "--", "partitura"]).stdout
 assert diff.strip(), "no change in worktree"
 open(os.path.join(seed, "patch.diff"), "w").write(diff)
 r_patched = run(["/venv/bin/python", "_seed/demo.py"], cwd=wt, env=env)
-run(["git", "-C", wt, "stash", "push", "--", "partitura"])
+# NOTE: never `git stash` here — the stash is shared by all worktrees of a repository
+assert run(["git", "-C", wt, "apply", "-R", os.path.join(seed, "patch.diff")]).returncode == 0, "cannot reverse the patch"
 r_clean = run(["/venv/bin/python", "_seed/demo.py"], cwd=wt, env=env)
-run(["git", "-C", wt, "stash", "pop"])
-assert run(["git", "-C", wt, "diff", "--", "partitura"]).stdout == diff, "stash pop did not restore the patch"
+assert run(["git", "-C", wt, "apply", os.path.join(seed, "patch.diff")]).returncode == 0, "cannot re-apply the patch"
+assert run(["git", "-C", wt, "diff", "--", "partitura"]).stdout == diff, "re-applying did not restore the patch"
 demo_ok = r_patched.returncode != 0 and r_clean.returncode == 0
 tests = None
 if skip_tests and os.path.exists(os.path.join(out, "meta.json")):
